@@ -343,6 +343,14 @@ def cmp_parts(n):
 _FLIP = {"<": ">", ">": "<", "<=": ">=", ">=": "<=", "==": "==", "!=": "!="}
 
 
+def cmp_both(n):
+    """both spellings of a comparison: [(op, lhs, rhs), (mirrored op, rhs, lhs)] (empty if n is no comparison)"""
+    cp = cmp_parts(n) if n is not None else None
+    if not cp:
+        return []
+    return [cp, (_FLIP[cp[0]], cp[2], cp[1])]
+
+
 def cmp_oriented(n, right_is):
     """(op, lhs, rhs) of a comparison, oriented so that right_is(rhs) holds (operands swapped and the operator mirrored when
     only the left operand satisfies it); None if n is no comparison or neither side qualifies.  `a < b` and `b > a` are the
